@@ -109,7 +109,7 @@ def gen_case(rng, n_sent=1, nbest=None, family=None, max_n=6, sparse=False, head
         'pruning_size': rng.choice((ntags, ntags + 3, 50)) if not beam else rng.randint(1, ntags),
         'use_beta': False,
         'beta': 0.00001,
-        'max_step': 300000,
+        'max_step': 300000 if (nbest or 1) == 1 else 40000,   # n-best search is exhaustive up to the k-th goal
         'max_length': 250,
     }
     if beam and rng.random() < 0.6:
@@ -383,6 +383,9 @@ def run_and_check(E, case, sample=False, nontrivial_rule='derivations>=2'):
     R.last(wit)
     out = E.run(case)
     if out['error'] is not None:
+        if isinstance(out['error'], MemoryError):
+            R.count('harness:memory-limit-hit')          # address-space limit of the shard, not a verdict
+            return []
         R.case(stable_hash(wit), True)
         E.violation('run:raises', f'depccg.parsing.run raised {out["error"]!r}', wit)
         return []
